@@ -307,6 +307,20 @@ def apiNew (dir : Dir) (p : Nat) (hdr : Option Bytes) (caches : List Nat) : Dir 
     | (dir, .error f) => (dir, .error (wrapErr "Downsampled" f))
     | (dir, .ok cs) => (dir, .ok ({ d := d, range := none, caches := cs, cb := none }, user))
 
+/-- `TimeRange::from_data` -/
+def rangeFromData (d : DataSess) : R (Option (Nat × Nat)) :=
+  match d.entries.head? with
+  | none => .ok none
+  | some f => match d.lastTime with
+    | some l => .ok (some (f.ts, l))
+    | none => .error .panic
+
+/-- the header comparison of `builder.open` -/
+def headerResult (hdr : Option Bytes) (user : Bytes) : R Bytes :=
+  match hdr with
+  | some expected => if user ≠ expected then .error (.err "Header/Mismatch") else .ok expected
+  | none => .ok user
+
 /-- `ByteSeries::open_existing_with_resampler` via `builder.open` -/
 def apiOpen (dir : Dir) (p : Option Nat) (hdr : Option Bytes) (caches : List Nat) (cb : Option Bool) :
     Dir × R (Sess × Bytes) :=
@@ -321,25 +335,15 @@ def apiOpen (dir : Dir) (p : Option Nat) (hdr : Option Bytes) (caches : List Nat
       match rd with
       | .error f => (dir, .error (wrapErr "Open" f))
       | .ok d =>
-        -- TimeRange::from_data
-        let range : R (Option (Nat × Nat)) :=
-          match d.entries.head? with
-          | none => .ok none
-          | some f => match d.lastTime with
-            | some l => .ok (some (f.ts, l))
-            | none => .error .panic
-        match range with
+        match rangeFromData d with
         | .error f => (dir, .error f)
         | .ok range =>
           match openCaches false dir d cb caches [] with
           | (dir, .error f) => (dir, .error (wrapErr "Downsampled" f))
           | (dir, .ok cs) =>
-            let s : Sess := { d := d, range := range, caches := cs, cb := cb }
-            match hdr with
-            | some expected =>
-              if user ≠ expected then (dir, .error (.err "Header/Mismatch"))
-              else (dir, .ok (s, expected))
-            | none => (dir, .ok (s, user))
+            match headerResult hdr user with
+            | .error f => (dir, .error f)
+            | .ok h => (dir, .ok ({ d := d, range := range, caches := cs, cb := cb }, h))
 
 def mainRegion (dir : Dir) (s : Sess) : Bytes := dir.main.region s.d.hdrLen
 
